@@ -98,6 +98,8 @@ def _run_exact(res, ops, wall, tier):
     t, running, speed = F(0), False, F(1)
     interp = Interpreter(_chart(), clock=clock)
     sync = SynchronizedClock(interp)
+    at_start = []
+    interp.attach(lambda me: at_start.append((me.time, sync.time)) if me.name == 'step started' else None)
     last_step_time = F(0)
     last_read = F(0)
     trace = []
@@ -148,6 +150,8 @@ def _run_exact(res, ops, wall, tier):
             interp.queue('e')
             ms = interp.execute_once()
             last_step_time = t
+            if at_start and at_start[-1][0] != at_start[-1][1]:
+                return res.fail('synchronized-clock', "while 'step started' (time=%r) was dispatched the SynchronizedClock read %r" % at_start[-1], trace=trace)
             if F(interp.time) != t or (ms is not None and F(ms.time) != t):
                 return res.fail('step-time', 'interpreter time %r / MacroStep.time %r for a step at clock %r'
                                 % (interp.time, ms and ms.time, float(t)), trace=trace)
